@@ -57,6 +57,15 @@ pub fn register(m: &mut HashMap<&'static str, OpFn>) {
         use ff::FromUniformBytes;
         vec![hex(&<Scalar as FromUniformBytes<64>>::from_uniform_bytes(&a.b64(0)).to_bytes())]
     });
+    // ff::PrimeFieldBits (feature group-bits): little-endian bits of the canonical representation, and of the modulus
+    m.insert("gp.bits", |a| {
+        use ff::PrimeFieldBits;
+        let s = a.sc(0);
+        let b = s.to_le_bits();
+        let c = <Scalar as PrimeFieldBits>::char_le_bits();
+        let bits = |x: &ff::FieldBits<[u8; 32]>| x.iter().map(|b| if *b { '1' } else { '0' }).collect::<String>();
+        vec![hex(&b.into_inner()), hex(&c.into_inner()), bits(&s.to_le_bits()), tint(<Scalar as PrimeFieldBits>::char_le_bits().len())]
+    });
     m.insert("gp.consts", |_a| {
         vec![
             <Scalar as PrimeField>::MODULUS.to_string(),
